@@ -29,44 +29,45 @@ var repoDir = func() string {
 	}
 	return "/repo"
 }()
+
 const repoMod = "github.com/trajectoryjp/spatial_id_go/v4"
 
 var verifDir = "/verif"
 
 type Instance struct {
-	Prop    string
-	Harness string           // function name
-	PkgDir  string           // e.g. "transform"
-	Case    map[string]int64 // vCase parameters
-	Unwind  int
-	Budget  int64
-	Solver  SolverKind
-	Timeout int // ms per query
-	MaxPaths int
-	Known   []string // active known-finding ids
-	MaxSeconds float64
-	Relaxed  bool // floats as reals with rounding-error terms
-	RelaxedUF bool
-	Opaque    bool // structure-only float mode (implies the real-sorted encoding)
+	Prop        string
+	Harness     string           // function name
+	PkgDir      string           // e.g. "transform"
+	Case        map[string]int64 // vCase parameters
+	Unwind      int
+	Budget      int64
+	Solver      SolverKind
+	Timeout     int // ms per query
+	MaxPaths    int
+	Known       []string // active known-finding ids
+	MaxSeconds  float64
+	Relaxed     bool // floats as reals with rounding-error terms
+	RelaxedUF   bool
+	Opaque      bool // structure-only float mode (implies the real-sorted encoding)
 	NoSubnormal bool
-	Stateless bool // every query on a fresh solver process fed with the path's script (z3's one-shot pipeline decides some mixed Real/BV goals its incremental core does not)
-	Concrete map[string]string // if set: run as a concrete interpreter with these inputs (translator validation)
+	Stateless   bool              // every query on a fresh solver process fed with the path's script (z3's one-shot pipeline decides some mixed Real/BV goals its incremental core does not)
+	Concrete    map[string]string // if set: run as a concrete interpreter with these inputs (translator validation)
 }
 
 type InstanceResult struct {
-	Inst   *Instance
-	Stats  PathStats
-	WallS  float64
-	Err    string
-	Trace  []string
+	Inst  *Instance
+	Stats PathStats
+	WallS float64
+	Err   string
+	Trace []string
 }
 
 type Program struct {
-	prog  *ssa.Program
-	pkgs  map[string]*ssa.Package // by dir relative to repo
-	fset  interface{}
+	prog       *ssa.Program
+	pkgs       map[string]*ssa.Package // by dir relative to repo
+	fset       interface{}
 	harnessFns map[string][]string // pkgdir -> harness function names
-	overlay map[string][]byte
+	overlay    map[string][]byte
 }
 
 var pkgNameOf = map[string]string{
